@@ -61,6 +61,11 @@ func Judge(sc *Scenario, md *Model, rec *StepRecord) []Finding {
 		add("C13", "panic:"+panicSite(rec.Panic), map[string]interface{}{"panic": rec.Panic})
 		return out
 	}
+	if rec.LoopbackLost {
+		// gossip does not echo a node's own messages back to it: the loop-back is the only way the node's own signature is
+		// ever counted, so without it the message can never be published by this node with its own signature in it
+		add("C02", "own-signature-never-offered-to-the-aggregation", map[string]interface{}{"note": rec.Event.Note})
+	}
 	agg := rec.Event.Kind == "obs" || rec.Event.Kind == "loopback"
 	var gotObs, gotVAA []Out
 	for _, o := range rec.Out {
